@@ -69,6 +69,12 @@ def make_wiki(cfg):
         pages["Rd"] = [(31, "#REDIRECT [[Rd2]]")]
         pages["Rd2"] = [(32, "#REDIRECT [[Rd]]")]
         articles += [("Rd", None), ("Alpha", None)]
+    elif red == "into-cycle":
+        # a listed redirect that leads INTO a circle it is not part of
+        pages["Rd"] = [(31, "#REDIRECT [[Rd2]]")]
+        pages["Rd2"] = [(32, "#REDIRECT [[Rd3]]")]
+        pages["Rd3"] = [(33, "#REDIRECT [[Rd2]]")]
+        articles += [("Rd", None), ("Alpha", None)]
     elif red == "dead":
         pages["Rd"] = [(31, "#REDIRECT [[Nowhere]]")]
         articles += [("Rd", None), ("Alpha", None)]
@@ -94,7 +100,7 @@ class Configs(Space):
             for img in ("none", "direct", "deep", "shared"):
                 if img == "deep" and tdepth == 0:
                     continue
-                for red in ("none", "single", "chain", "self", "cycle", "dead"):
+                for red in ("none", "single", "chain", "self", "cycle", "into-cycle", "dead"):
                     for revs in ("single", "two", "pinned-old", "both", "both-reversed", "two-pins"):
                         if revs not in ("single", "two") and red != "none":
                             continue
